@@ -630,6 +630,13 @@ impl Stdfs {
                     )?;
                 }
 
+                // Never write through an existing link or onto a directory
+                if let Ok(meta) = fs::symlink_metadata(&dst_path) {
+                    if !meta.is_file() {
+                        return Err(PathError::is_not_file(dst_path).into());
+                    }
+                }
+
                 // Copy over the file/link
                 fs::copy(src.path(), &dst_path)?;
 
